@@ -3,7 +3,7 @@ import genb
 from vlib import xhex, rnd_bytes
 from props.codec_common import *
 
-THEOREMS = ["C04_primary", "C04_canonical", "C04_bundle_layout", "C04_fresh_passes"]
+THEOREMS = ["C04_primary", "C04_canonical", "C04_bundle_layout", "C04_fresh_passes", "C04_tie_crc_single_bytes"]
 RELEASE = True          # debug and release builds of the harness (debug_assert!, overflow checks, cfg(debug_assertions))
 RULE = ("CRC16/CRC32 on raw strings (lengths 0-300; random, all-zero, all-ones) against the crc-crate instances bp7 exports; RT "
         "<bundle> with every prior CRC state per block (absent, empty placeholder, stale value of either width): the CRC bytes on "
